@@ -672,8 +672,8 @@ impl Property for P13 {
 
     fn random_runs(tier: Tier) -> u64 {
         match tier {
-            Tier::Quick => 40_000,
-            Tier::Thorough => 3_000_000,
+            Tier::Quick => 100_000,
+            Tier::Thorough => 4_000_000,
         }
     }
 
